@@ -1,7 +1,7 @@
 #!/bin/bash
 # Runs every claimed check (quick tier by default) on the current tree, N at a time; prints one line per check.
 tier=${1:-quick}; par=${2:-3}; seed=${3:-0}
-cd /verif
+cd "$(dirname "$0")/.."
 props=$(/venv/bin/python -c "import json;print(' '.join(c['property_id'] for c in json.load(open('MANIFEST.json'))['checks']))")
 mkdir -p .scratch/full
 printf '%s\n' $props | xargs -P $par -I{} sh -c "VERIF_SEED=$seed ./check {} --tier $tier > .scratch/full/{}.log 2>&1; echo {} rc=\$? \$(grep -E '^\[' .scratch/full/{}.log | cut -c1-150)"
